@@ -671,3 +671,40 @@ PROPS["C06"] = dict(
                  "mutex barrier alone (its interleavings are explored under C11), so TSan on real executions is the race "
                  "monitor; a wall-clock watchdog is inconclusive", SAN_ASSUME],
 )
+
+# ----------------------------------------------------------------------------- C04
+_C04_TLX = ["tlx/thread_pool.cpp", "tlx/multi_timer.cpp", "tlx/logger/core.cpp", "tlx/die/core.cpp"]
+_C04_UNITS = ["pss0", "pss1", "pss2"]
+PROPS["C04"] = dict(
+    units={u: dict(src=["harness/C04_parallel_string_sort.cpp"], tlx=_C04_TLX, flags=_SCHED_FLAGS + ["-DVERIF_PART=%d" % i],
+                   flags_asan=["-g1"], flags_tsan=["-g1"])
+           for i, u in enumerate(_C04_UNITS)},
+    quick=[R(u, "plain", 2, 150, ["mode=serial"], timeout=600) for u in _C04_UNITS]
+    + [R(u, "asan", 1, 60, ["mode=serial"], timeout=600) for u in _C04_UNITS]
+    + [R(u, "tsan", 1, 40, ["mode=jitter"], timeout=600) for u in _C04_UNITS]
+    + [R(u, "asan", 1, 40, ["mode=jitter"], timeout=600) for u in _C04_UNITS]
+    + [R("pss0", "plain", 1, 3, ["mode=jitter", "big=1"], timeout=600),
+       R("pss0", "asan", 1, 1, ["mode=jitter", "big=1"], timeout=600)],
+    thorough=[R(u, "plain", 5, 1500, ["mode=serial"], timeout=7200) for u in _C04_UNITS]
+    + [R(u, "asan", 3, 300, ["mode=serial"], timeout=7200) for u in _C04_UNITS]
+    + [R(u, "tsan", 3, 200, ["mode=jitter"], timeout=7200) for u in _C04_UNITS]
+    + [R(u, "asan", 2, 200, ["mode=jitter"], timeout=7200) for u in _C04_UNITS]
+    + [R("pss0", "plain", 4, 10, ["mode=jitter", "big=1"], timeout=7200),
+       R("pss0", "asan", 4, 4, ["mode=jitter", "big=1"], timeout=7200),
+       R("pss0", "tsan", 2, 2, ["mode=jitter", "big=1"], timeout=7200)],
+    rule="a case = 12 sorts (big=1: one sort of 1.05-2.1 million strings through the public entry points with default "
+         "parameters). A sort = a string multiset of the C03 shapes (all-equal, few values, shared prefixes around the "
+         "4/8-byte key width, prefix chains, mostly empty, length-1, random and high bytes, runs of identical strings, "
+         "{a,b} strings) of 0..5000 strings, as uchar* (own heap block per string) or std::string, with or without LCP "
+         "output, 1..4 (jitter: ..16) workers through the shimmed hardware_concurrency(), and one of seven parameter sets "
+         "(smallsort threshold 2..1024, insertion threshold 2..32, splitter tree of 2..10 bits, both tree classifiers tlx instantiates, work "
+         "sharing on/off, rest-size accounting on/off, 32/64-bit keys, or the defaults). mode=serial: one seeded "
+         "controlled schedule per sort (random / sticky / PCT-style) over all mutex, condition-variable and atomic "
+         "operations of the sorter and its thread pool, distinct schedules counted by decision hash; mode=jitter: real "
+         "threads with seeded delays under TSan/ASan. Output checked as in C03 (identity permutation, memcmp order, "
+         "exact LCP, canary). Classes: (parameter set, representation, lcp, workers, size class, shape).",
+    require=dict(any=["sorts", "sorts_with_lcp", "sorts_with_more_than_one_worker", "controlled_schedules"]),
+    assumptions=[_SCHED_ASSUME, "inputs are NUL-free; lcp[0] is not checked", "the sampler of the sort seeds itself from a heap "
+                 "address, so a replay reproduces the schedule decisions but not necessarily the same splitters",
+                 SAN_ASSUME],
+)
